@@ -1,3 +1,13 @@
 """Decidable signature predicates for recorded findings (known_findings.json).
 pred(case, observed, code) -> bool; a violation is suppressed only when its (shrunk) case matches
 the predicate of a listed finding of the same property."""
+import glob as _glob
+import importlib as _importlib
+import os as _os
+
+# property owners add predicates in their own vharness/sig_<id>.py; they are collected here
+for _f in sorted(_glob.glob(_os.path.join(_os.path.dirname(__file__), "sig_*.py"))):
+    _m = _importlib.import_module("vharness." + _os.path.basename(_f)[:-3])
+    for _k, _v in vars(_m).items():
+        if callable(_v) and not _k.startswith("_"):
+            globals().setdefault(_k, _v)
